@@ -282,7 +282,7 @@ fn main() {
   let quick = ctx.quick();
   let conv = probe_convention();
   ctx.set("fixed_interval_keys_observed", json!(if conv { "interval end (rounded up)" } else { "interval start (rounded down)" }));
-  let n = ctx.n(80, 1500);
+  let n = ctx.n(80, 10_000);
   ctx.run_cases("aggs", n, |rng: &mut Rng, l: &mut Local, scratch: &std::path::PathBuf| {
     let ndocs = if rng.chance(0.5) { rng.urange(20, 60) } else { rng.urange(60, 200) };
     let docs = aggs::gen_corpus(rng, ndocs);
